@@ -7,6 +7,7 @@ package ref
 
 import (
 	"strconv"
+	"unicode"
 	"unicode/utf8"
 
 	"verif/harness/internal/impl"
@@ -19,7 +20,24 @@ type seg struct {
 	off int  // byte offset
 }
 
-func fold(r rune) rune { return verifhooks.CaseFold(r) }
+// Unicode switches the reference from the library's own fold table to the orbits of unicode.SimpleFold (representative:
+// the least member).  Used by the directed table follow-up of cmd/corr, where the table data itself is suspect; equalities
+// of folded code points are then independent of internal/tables, while the *order* between different orbits is not the
+// library's, so callers must compare only the zero / non-zero outcome of Compare.
+var Unicode bool
+
+func fold(r rune) rune {
+	if !Unicode {
+		return verifhooks.CaseFold(r)
+	}
+	m := r
+	for x := unicode.SimpleFold(r); x != r; x = unicode.SimpleFold(x) {
+		if x < m {
+			m = x
+		}
+	}
+	return m
+}
 
 // dec: forward segmentation as utf8.DecodeRune does it, folded; the last entry is the end offset
 func dec(s []byte) ([]rune, []int) {
